@@ -21,22 +21,38 @@ Definition row_term (r : row) (t : term) : N :=
 (* replace_variables_with_bound_values *)
 Definition row_inst (r : row) (c : atom) : fact := (row_term r (a_s c), row_term r (a_p c), row_term r (a_o c)).
 
-(* evaluate_filters: a filter whose variable is unbound is skipped; when the value names a bound variable only
-   "=" and "!=" are evaluated (on ids) and every other operator passes; a variable-valued filter whose
-   value variable is unbound falls through to the numeric comparison with parse("X..") = 0.0 *)
+(* evaluate_filters (as repaired by 7537bd2): a filter whose variable is unbound is skipped; when the value names a
+   bound variable "=" and "!=" compare the ids and the four order operators compare the numeric values of the two
+   terms (a term that does not parse as a number counts as 0.0, as against a constant); a variable-valued filter
+   whose value variable is unbound falls through to the numeric comparison with parse("X..") = 0.0 *)
 Definition eval_filter (nv : N -> Z) (r : row) (f : fcond) : bool :=
   match f with
   | FNum x op z => match rget (KV x) r with Some l => cmp_num op (nv l) z | None => true end
   | FVar x op y =>
       match rget (KV x) r with
       | Some l => match rget (KV y) r with
-                  | Some rr => match op with Ne => negb (N.eqb l rr) | Eq => N.eqb l rr | _ => true end   (* `_ => {}` *)
+                  | Some rr => match op with
+                               | Ne => negb (N.eqb l rr) | Eq => N.eqb l rr      (* identity of terms *)
+                               | _ => cmp_num op (nv l) (nv rr)                   (* numeric values of both terms *)
+                               end
                   | None => cmp_num op (nv l) 0%Z
                   end
       | None => true
       end
   end.
 Definition eval_filters (nv : N -> Z) (r : row) (fs : list fcond) : bool := forallb (eval_filter nv r) fs.
+
+(* evaluate_filters before 7537bd2 (regression lemma C05_varcmp_regression only): between two bound variables every
+   operator other than = / != fell into `_ => {}` *)
+Definition eval_filter_pre7537 (nv : N -> Z) (r : row) (f : fcond) : bool :=
+  match f with
+  | FVar x op y =>
+      match rget (KV x) r, rget (KV y) r with
+      | Some l, Some rr => match op with Ne => negb (N.eqb l rr) | Eq => N.eqb l rr | _ => true end
+      | _, _ => eval_filter nv r f
+      end
+  | _ => eval_filter nv r f
+  end.
 
 (* the body shared by the naive and semi-naive infer_round: for every solution that passes the
    filters, every conclusion that is not known is inserted into the round's set *)
